@@ -161,22 +161,30 @@ EmbRuns(p) == p.k = "instance" /\
                                           "emb_unknown_class"}))
 
 (* ---- whole-session prediction for the intended code shape (used by the  *)
-(* trace module to report impl drift; never a verdict)                     *)
-RECURSIVE PredictSeq(_, _, _, _)
-PredictSeq(ses, prods, i, nsw) ==
-  IF i > Len(prods) THEN {"ok"}
+(* trace module to report impl drift; never a verdict).  `loose`: an       *)
+(* earlier production was mutated at token level, so the rest of the text  *)
+(* may parse differently: no prediction beyond "admissible".               *)
+RECURSIVE PredictSeq(_, _, _, _, _)
+PredictSeq(ses, prods, i, nsw, loose) ==
+  IF loose THEN Admissible(ses)
+  ELSE IF i > Len(prods) THEN {"ok"}
   ELSE LET p == prods[i]
            here == IF p.k = "include" /\ p.d = "none" /\ p.v = "inc2"
-                   THEN PredictSeq(ses, ses.inc, 1, nsw)
-                   ELSE IF p.k = "include" /\ p.v \in {"self", "mutual"}
+                   THEN PredictSeq(ses, ses.inc, 1, nsw, FALSE)
+                   ELSE IF p.k = "include" /\ p.d = "dependency"
+                           /\ p.v \in {"self", "mutual"}
                    THEN MOFErrors
                    ELSE ImplProd(p, [nsw |-> nsw, emb |-> FALSE])
-           nsw2 == nsw \/ (p.k = "namespace" /\ p.d \in {"none", "syntax"}
-                           /\ p.v # "same") \/ p.d = "syntax"
+           nsw2 == nsw \/ (p.k = "namespace" /\ p.d = "none" /\ p.v = "other")
                        \/ (p.k = "include" /\ p.v = "inc2"
-                           /\ \E q \in Rng(ses.inc) : q.k = "namespace") IN
+                           /\ \E q \in Rng(ses.inc) :
+                                q.k = "namespace" /\ q.v # "same")
+           loose2 == p.d = "syntax" \/ p.d = "lex"
+                     \/ (p.k = "include" /\ p.v = "inc2"
+                         /\ \E q \in Rng(ses.inc) : q.d \in {"syntax", "lex"}) IN
        (here \ {"ok"})
-       \cup (IF "ok" \in here THEN PredictSeq(ses, prods, i + 1, nsw2) ELSE {})
+       \cup (IF "ok" \in here
+             THEN PredictSeq(ses, prods, i + 1, nsw2, loose2) ELSE {})
 
-Predict(ses) == PredictSeq(ses, ses.main, 1, FALSE)
+Predict(ses) == PredictSeq(ses, ses.main, 1, FALSE, FALSE)
 =============================================================================
